@@ -175,7 +175,8 @@ func failsLoudly(from *ssa.BasicBlock, allowReturnErr bool, forbidden func(ssa.I
 // non-nil: at a later nil test of that very value only the non-nil successor is followed.
 func failsLoudlyKnowing(from *ssa.BasicBlock, allowReturnErr bool, forbidden func(ssa.Instruction) bool, known []errTest) []string {
 	var offending []string
-	q := &pathQuery{
+	var q *pathQuery
+	q = &pathQuery{
 		blockEdge: func(b, to *ssa.BasicBlock) bool {
 			for _, t := range known {
 				if t.If.Block() == b && t.NonNilSucc != t.NilSucc {
@@ -190,7 +191,14 @@ func failsLoudlyKnowing(from *ssa.BasicBlock, allowReturnErr bool, forbidden fun
 			}
 			if r, ok := i.(*ssa.Return); ok && allowReturnErr {
 				for _, res := range r.Results {
-					if isErrorType(res.Type()) && provablyNonNilErr(res, r.Block(), 0) {
+					if !isErrorType(res.Type()) {
+						continue
+					}
+					if provablyNonNilErr(res, r.Block(), 0) {
+						return true
+					}
+					// the returned phi as this path delivered it
+					if v, from := q.onPath(res); from != nil && provablyNonNilErr(v, from, 0) {
 						return true
 					}
 				}
